@@ -34,11 +34,20 @@ def _count(maxn):
 _PREV = []
 
 
+_NCALL = [0]
+
+
 def _call(ctx, A, q0, q1, sig, nontrivial=True):
     A0, q00, q10 = oracles.snapshot_arrays(A, q0, q1)
     q00, q10 = np.asarray(q00), np.asarray(q10)
     ctx.case(sig, nontrivial=nontrivial, sample={'A': A0, 'q0': q00, 'q1': q10})
-    with monitor.write_protected(A, q0, q1):
+    _NCALL[0] += 1
+    if _NCALL[0] % 2:
+        with monitor.write_protected(A, q0, q1):
+            res = ptn.qr(A, q0, q1)
+    else:
+        # every second call WITHOUT the write trap: a read-only argument can steer the code away from an in-place branch that a writeable array owning
+        # its memory would take; the arguments are compared bit for bit with their snapshots afterwards (check_qr: input-unchanged)
         res = ptn.qr(A, q0, q1)
     oracles.check_qr(ctx, A0, q00, q10, (A, q0, q1), res)
     # the result of the PREVIOUS call must still be a factorisation of the previous matrix (no output buffer reused between calls)
@@ -94,7 +103,7 @@ def random_case(ctx, idx, rng):
             m, n = n, m
         if shape_kind == 'wide' and m > n:
             m, n = n, m
-    lay = str(rng.choice(['zero', 'sorted', 'unsorted', 'q0sorted', 'q1sorted', 'disjoint', 'big', 'pairs', 'negative', 'repeated', 'huge', 'extreme-signs', 'int8', 'wrap-sorted', 'wrap-sorted-int8', 'int8-small', 'aliased', 'aliased', 'int-extremes']))
+    lay = str(rng.choice(['zero', 'sorted', 'unsorted', 'q0sorted', 'q1sorted', 'disjoint', 'big', 'pairs', 'negative', 'repeated', 'huge', 'extreme-signs', 'int8', 'wrap-sorted', 'wrap-sorted-int8', 'int8-small', 'aliased', 'aliased', 'int-extremes', 'descending', 'descending']))
     r = int(rng.integers(1, 4))
     if big >= 160 and rng.random() < 0.4:
         lay = 'many-sectors'
